@@ -198,6 +198,8 @@ func Cmp(ei, ej Object) int {
 		return cmp.Compare(ei.(Quote).Inspect(), ej.(Quote).Inspect())
 	case FUNC:
 		return cmp.Compare(ei.(Function).CacheKey, ej.(Function).CacheKey)
+	case MACRO: // an all caps macro defined again is compared with its previous definition: by text too.
+		return cmp.Compare(ei.Inspect(), ej.Inspect())
 	case MAP:
 		m1 := ei.(Map)
 		m2 := ej.(Map)
@@ -254,8 +256,8 @@ func Cmp(ei, ej Object) int {
 	case STRING:
 		return cmp.Compare(ei.(String).Value, ej.(String).Value)
 
-	// RETURN, MACRO, ANY aren't expected to be compared.
-	case RETURN, MACRO, UNKNOWN, ANY:
+	// RETURN, ANY aren't expected to be compared.
+	case RETURN, UNKNOWN, ANY:
 		panic(fmt.Sprintf("Unexpected type in Cmp: %s", ti))
 	}
 	return 1
